@@ -309,8 +309,15 @@ func (c *Ctx) Solve(timeoutMs int, par int, crossCheck bool) {
 		if o.Status != "unknown" || o.Vacuity || o.KnownClass != "" || again >= 2 || strings.HasPrefix(o.Output, "solver disagreement") {
 			continue
 		}
+		second := 12 * timeoutMs
+		if second > 120000 {
+			second = 120000
+		}
+		if second <= 4*timeoutMs {
+			break // the first retry already had at least that much
+		}
 		again++
-		r := runSolvers(c.Query(o, true), 12*timeoutMs, false, solvers)
+		r := runSolvers(c.Query(o, true), second, false, solvers)
 		if r.status == "unsat" || r.status == "sat" {
 			o.Status, o.Solver, o.Ms = r.status, r.solver+" (second retry)", r.ms
 			o.Candidate = false
